@@ -23,16 +23,23 @@ def main():
     py, xs, lits = seeds.all_seeds()
     oracles_ = ("c01",)
     pycommon.b_full(chk, oracles_, 2 if chk.quick else 3, python_only=True, lift=True)
+    ep = seeds.expr_product()
+    pycommon.k0_texts(chk, oracles_, ep, "expression kinds x positions k=0", wall=150 if chk.quick else 900)
+    pycommon.indent_skeleton(chk, oracles_, 4 if chk.quick else 6, pycommon.CORE_OPTS, wall=120 if chk.quick else 1500)
+    pycommon.indent_skeleton(chk, oracles_, 2 if chk.quick else 3, pycommon.RICH_OPTS, wall=120 if chk.quick else 1500, label="rich")
     if chk.quick:
         pycommon.b_seeds_k0(chk, oracles_, py, lift=True, wall=100)
         pycommon.b_holes(chk, oracles_, seeds.sample(chk.rng, py, 60), 2, lift=True, wall=120)
         pycommon.a_layouts(chk, oracles_, seeds.sample(chk.rng, py, 50), 2, wall=100)
         pycommon.a_holes(chk, oracles_, seeds.sample(chk.rng, py, 40), 3, wall=100)
+        pycommon.b_holes(chk, oracles_, seeds.sample(chk.rng, py, 40), 2, wall=100, insert=True, name="B-holes insert k=1")
     else:
         pycommon.b_seeds_k0(chk, oracles_, py, lift=True, wall=900)
         pycommon.b_holes(chk, oracles_, py, 0, lift=True, wall=2400)
         pycommon.a_layouts(chk, oracles_, py, 0, wall=1500)
         pycommon.a_holes(chk, oracles_, py, 0, wall=2400)
+        pycommon.b_holes(chk, oracles_, py, 0, wall=2400, insert=True, name="B-holes insert k=1")
+        pycommon.a_holes(chk, oracles_, py, 0, wall=2400, insert=True, name="A-holes insert k=1")
     chk.finish()
 
 
